@@ -40,6 +40,9 @@ def _dump(strategy):
         if hasattr(m, "balance") and hasattr(m, "token_config"):  # option market: cash + option holdings
             pos[k.name] = {"cash": str(m.balance), **{n: [str(v.amount), str(v.avg_buy_price), str(v.buy_amount), str(v.avg_sell_price), str(v.sell_amount)]
                                                        for n, v in m.positions.items()}}
+        elif hasattr(m, "_supplies") and hasattr(m, "_borrows"):  # lending market: scaled balances and collateral flags
+            pos[k.name] = {"supplies": {t.name: [str(v.base_amount), bool(v.collateral)] for t, v in m._supplies.items()},
+                           "borrows": {t.name: str(v.base_amount) for t, v in m._borrows.items()}}
         else:
             pos[k.name] = {f"{p.lower_tick}:{p.upper_tick}": [str(v.liquidity), str(v.pending_amount0), str(v.pending_amount1)] for p, v in m.positions.items()}
     rec = {"tag": strategy.tag, "pid": os.getpid(), "index": [str(i) for i in df.index], "columns": [str(c) for c in df.columns], "rows": rows,
@@ -227,7 +230,61 @@ def _define():
         def finalize(self):
             _dump(self)
 
-    return {"sig2": Signal, "sig3": Signal3, "buyer": Buyer, "keep": Keep, "idle": Idle, "trader": Trader, "trig": Triggered, "obuy": OptBuyer, "obuy2": OptBuyer2, "oquery": OptQuery}
+    class PriceWriter(Keep):
+        """what-if analysis on its OWN price table: from the first bar on it overwrites the coming prices of its copy (and otherwise behaves like Keep)"""
+
+        def on_bar(self, snapshot):
+            super().on_bar(snapshot)
+            if snapshot.row_id == 0:
+                px = self.prices
+                for c in px.columns:
+                    px[c] = [v * 3 if i > 0 else v for i, v in enumerate(px[c])]
+
+    class OptCapBuyer(Strategy):
+        """buys with a price cap relative to the mark (the rarely used argument), into the second level"""
+
+        def __init__(self, tag):
+            super().__init__()
+            self.tag = tag
+
+        def on_bar(self, snapshot):
+            m = list(self.broker.markets.values())[0]
+            if snapshot.row_id == 0:
+                m.deposit(Decimal(3))
+                m.buy("C1", Decimal(6), max_mark_price_multiple=Decimal(3))
+
+        def finalize(self):
+            _dump(self)
+
+    class Lender(Strategy):
+        """supplies collateral and borrows on the lending market, keeps the position"""
+
+        def __init__(self, tag):
+            super().__init__()
+            self.tag = tag
+
+        def on_bar(self, snapshot):
+            m = list(self.broker.markets.values())[0]
+            toks = {t.name: t for t in m.tokens}
+            if snapshot.row_id == 0:
+                m.supply(toks["WETH"], Decimal(2), True)
+                m.borrow(toks["USDC"], Decimal(1500))
+
+        def finalize(self):
+            _dump(self)
+
+    class RiskEditor(Lender):
+        """a stress test on its OWN market object: it tightens the liquidation threshold it is judged by"""
+
+        def on_bar(self, snapshot):
+            super().on_bar(snapshot)
+            if snapshot.row_id == 0:
+                m = list(self.broker.markets.values())[0]
+                rp = m.risk_parameters
+                for col in ("reserveLiquidationThreshold", "baseLTVasCollateral"):
+                    rp.loc["WETH", col] = rp.loc["WETH", col] * type(rp.loc["WETH", col])("0.7")
+
+    return {"pricewriter": PriceWriter, "ocap": OptCapBuyer, "lender": Lender, "riskeditor": RiskEditor, "sig2": Signal, "sig3": Signal3, "buyer": Buyer, "keep": Keep, "idle": Idle, "trader": Trader, "trig": Triggered, "obuy": OptBuyer, "obuy2": OptBuyer2, "oquery": OptQuery}
 
 
 STRATEGY_CLASSES = None
@@ -266,6 +323,17 @@ def make_setup(mix):
         px = db.price_frame(odata).drop(columns=["USD"])
         cfg = StrategyConfig(assets={db.ETH: Decimal(10)}, markets=[om])
         return cfg, BacktestData({om.market_info: odata}, (px, USD)), BacktestConfig()
+    if mix == "lending":
+        from demeter._typing import USD
+        from mc.worlds import aave
+
+        frames = aave.make_data(5)
+        am = aave.make_market(frames, tokens=None)
+        data = {am.market_info: am.data}
+        am = aave.AaveV3Market(am.market_info, aave.risk_csv_path(), list(aave.TOKENS))  # the configured market carries no data, the manager supplies it
+        px = aave.price_frame(5, {"WETH": [1, "0.99", "0.9", "0.8", "0.95"]}).drop(columns=["USD"])
+        cfg = StrategyConfig(assets={aave.WETH: Decimal(10), aave.USDC: Decimal(20000)}, markets=[am])
+        return cfg, BacktestData(data, (px, USD)), BacktestConfig()
     ticks = [200000, 200013, 199991, 199700, 200250, 200040]
     pool_a = uni.pool_q0(0.05)
     raw = uni.raw_frame(ticks, 5 * 10**9, 2 * 10**18, 4 * 10**16, open_tick=ticks[0])
@@ -559,6 +627,13 @@ def main(run: Run):
         jobs.append((run.seed, "one-pool", s, run.thorough))
     for s in [("buyer",), ("buyer", "buyer"), ("idle", "buyer"), ("buyer", "idle", "buyer")]:
         jobs.append((run.seed, "quote-funded", s, run.thorough))
+    # a strategy that writes into its own copies of the inputs (its price table, its market's risk parameters) next to strategies that rely on them
+    for s in [("pricewriter", "keep"), ("pricewriter", "trader", "keep"), ("keep", "pricewriter"), ("pricewriter",)]:
+        jobs.append((run.seed, "one-pool", s, run.thorough))
+    for s in [("ocap", "obuy"), ("ocap", "obuy2", "obuy"), ("obuy", "ocap"), ("ocap",)]:
+        jobs.append((run.seed, "options", s, run.thorough))
+    for s in [("lender",), ("riskeditor",), ("riskeditor", "lender"), ("lender", "riskeditor", "lender")]:
+        jobs.append((run.seed, "lending", s, run.thorough))
     for mix in mixes:
         for s in sels:
             if mix == "two-pools" and not run.thorough and len(s) == 3 and s[0] not in ("keep", "trig"):
